@@ -2230,6 +2230,7 @@ impl Procedure {
                 interp.set_scalar(vec[0].as_str(), vec[1].clone())?;
             } else {
                 // We don't; we're missing a required argument.
+                interp.pop_scope();
                 return self.wrong_num_args(&argv[0]);
             }
         }
@@ -2237,6 +2238,7 @@ impl Procedure {
         // NEXT, do we have any arguments left over?
 
         if argi != argv.len() {
+            interp.pop_scope();
             return self.wrong_num_args(&argv[0]);
         }
 
